@@ -198,6 +198,20 @@ Theorem C13_key_inj_on_plus_free_parents : key_inj_on parent_plus_free.
 Proof. exact key_inj_parents. Qed.
 Print Assumptions C13_key_inj_on_plus_free_parents.
 
+(** * pypyr.moduleloader.add_sys_path: for every schedule, each directory is appended to
+      sys.path at most once, and never when it was already there; its lock is a mutex *)
+Theorem C13_sys_path_no_duplicates : forall sp0 progs sched,
+  let st := arun sched (ainit sp0 progs) in
+  base st = sp0 /\ NoDup (added st) /\ forall p, In p (added st) -> ~ In p sp0.
+Proof. exact asp_no_duplicates. Qed.
+Print Assumptions C13_sys_path_no_duplicates.
+
+Theorem C13_sys_path_mutex : forall sp0 progs sched t1 t2,
+  let st := arun sched (ainit sp0 progs) in
+  aholds (athreads st t1) = true -> aholds (athreads st t2) = true -> t1 = t2.
+Proof. exact asp_mutex. Qed.
+Print Assumptions C13_sys_path_mutex.
+
 (** * Non-vacuity: concrete runs (evaluated) *)
 
 Definition ka : req := (None, "a").
@@ -253,3 +267,12 @@ Example C13_collision_nonvacuous :
     [ECall 0 (Some "/x", "a+b"); ECreated 0 (Some "/x", "a+b") 0%Z; ERet 0 (Some "/x", "a+b") 0%Z;
      ERet 0 (Some "/x+a", "b") 0%Z].
 Proof. vm_compute. reflexivity. Qed.
+
+(** three threads add the same two directories; "/d2" is already on sys.path *)
+Example C13_sys_path_nonvacuous :
+  let st := arun [0; 1; 2; 0; 1; 0; 0; 1; 0; 2; 0; 1; 1; 1; 1; 2; 2; 2; 2; 2; 0; 0; 0; 0; 0; 0; 1; 1; 1; 1; 1; 1; 2; 2; 2; 2; 2; 2]
+                 (ainit ["/d2"] [[("/d1", true); ("/d2", true)]; [("/d1", true)]; [("/d2", true); ("/d1", true); ("/nope", false)]]) in
+  added st = ["/d1"] /\ alock st = None /\
+  rev (alog st) = [AEAcq 0; AEAppend 0 "/d1"; AERel 0; AEAcq 2; AEKnown 0 "/d1"; AERel 2;
+                   AEKnown 2 "/d2"; AEAcq 1; AERel 1; AEKnown 1 "/d1"; AEKnown 2 "/nope"].
+Proof. vm_compute. repeat split. Qed.
